@@ -19,6 +19,7 @@ REG.undecided += [
 ]
 NR = 'kawin.precipitation.NucleationRate'
 MT = 'kawin.thermo.MultiTherm'
+TH = 'kawin.thermo.Thermodynamics'
 BT = 'kawin.thermo.BinTherm'
 
 
@@ -187,6 +188,32 @@ def c_multi_sign(ctx, it, cfg):
     forall(ctx, 'everything-shrinks-without-driving-force', 0, pbm.bins + 1, lambda i: implies(and_(volDG <= 0, Y.fields['precipitateDensity'].get(0, 0) > 0), growth.get(i) < 0))
     ctx.prove('back-end-asked-for-this-precipitate-phase', all(e[1] == PHASES[0] for e in log) and len(log) >= 1)
     ctx.prove('canary/never-unclamped', not_(unclamped), expect='refuted')
+
+
+@REG.contract('ExtraGibbsModel/extra-energy-shifts-the-molar-Gibbs-energy', [TH + ':ExtraGibbsModel'])
+def c_extra_gibbs(ctx, it, cfg):
+    """the extra (Gibbs-Thomson) energy GE is an energy PER MOLE OF ATOMS: the molar energy is G_m + GE, and the energy per formula unit is that sum times the site-ratio
+    normalisation -- for every phase, also one whose site ratios do not sum to one (otherwise the interface composition answers a different energy than the one asked for)"""
+    from .thermo_stubs import Variables, FakePycalphad
+    GE = real(ctx, 'GE')
+
+    class V2(Variables):
+        pass
+    V2.GE = GE
+
+    class P2(FakePycalphad):
+        variables = V2
+    install(it)
+    it.host_modules['pycalphad'] = P2
+    it.host_modules['pycalphad.variables'] = V2
+    it.load(TH)
+    V2.GE = GE          # the module registers its own GE variable object at import; the model reads it lazily -- here it is an arbitrary real
+    ast_ = real(ctx, 'molar_gibbs_energy')
+    norm = real(ctx, 'site_ratio_normalization', lambda q: q > 0)
+    m = new_obj(it, TH, 'ExtraGibbsModel', ast=ast_, _site_ratio_normalization=norm, models={'ord': real(ctx, 'ordering')})
+    ctx.prove('molar-energy = G_m + GE', and_(eq(m.energy, ast_ + GE), eq(m.GM, ast_ + GE)))
+    ctx.prove('formula-energy = (G_m + GE) * site-ratio normalisation', and_(eq(m.formulaenergy, (ast_ + GE) * norm), eq(m.G, (ast_ + GE) * norm)))
+    ctx.prove('canary/extra-energy-per-formula-unit', eq(m.formulaenergy, ast_ * norm + GE), expect='refuted')
 
 
 @REG.contract('binary/lookup-table-and-growth-sign',
